@@ -165,6 +165,15 @@ pub struct Case {
     pub fault: Option<(u8, u64)>,
     pub cpoints: bool,
     pub spoints: bool,
+    /// the predicate accepts exactly the elements descending from these source positions (u32::MAX = unused;
+    /// if both are unused the predicate is the slot mask `pmask`)
+    pub pred_pos: [u32; 2],
+    /// at most this many closure entries per thread are scheduling points (0 = all)
+    pub cp_limit: u8,
+    /// payload kind of the injected panic
+    pub fault_payload: u8,
+    /// no call logging (inputs of millions of elements)
+    pub quiet: bool,
 }
 
 impl Case {
@@ -189,7 +198,28 @@ impl Case {
             fault: None,
             cpoints: false,
             spoints: false,
+            pred_pos: [u32::MAX; 2],
+            cp_limit: 0,
+            fault_payload: 0,
+            quiet: false,
         }
+    }
+
+    /// long identity inputs have distinct elements (see source::WIDE)
+    pub fn wide(&self) -> bool {
+        self.input.len() > 255 && self.input.iter().enumerate().all(|(i, v)| *v == i as u8)
+    }
+
+    /// the id with which the element descending from source position `pos` reaches the predicate (first child
+    /// of every flat_map)
+    pub fn id_at_pred(&self, pos: u32) -> u64 {
+        let mut id = pos as u64 + 1;
+        for (s, k) in self.kinds().iter().enumerate() {
+            if *k != crate::model::Kind::F {
+                id = cl::label(s as u8, id, 0);
+            }
+        }
+        id
     }
 
     pub fn chain_str(&self) -> &'static str {
@@ -212,7 +242,7 @@ impl Case {
         };
         let j = |v: Vec<String>| v.join(",");
         format!(
-            "src={};in={};k={};e={};ch={};t={};rk={};pre={};sp={};nt={};cs={};cf={};fm={};ex={};pm={:x};fault={};cp={};spt={}",
+            "src={};in={};k={};e={};ch={};t={};rk={};pre={};sp={};nt={};cs={};cf={};fm={};ex={};pm={:x};fault={};cp={};spt={};pp={},{};cpl={};fp={};q={}",
             self.src.name(),
             if inp.is_empty() { "-".to_string() } else { inp },
             self.known as u8,
@@ -233,7 +263,12 @@ impl Case {
                 Some((s, id)) => format!("{}:{:x}", s, id),
             },
             self.cpoints as u8,
-            self.spoints as u8
+            self.spoints as u8,
+            self.pred_pos[0] as i64 - if self.pred_pos[0] == u32::MAX { u32::MAX as i64 + 1 } else { 0 },
+            self.pred_pos[1] as i64 - if self.pred_pos[1] == u32::MAX { u32::MAX as i64 + 1 } else { 0 },
+            self.cp_limit,
+            self.fault_payload,
+            self.quiet as u8
         )
     }
 
@@ -297,6 +332,15 @@ impl Case {
                 }
                 "cp" => c.cpoints = v == "1",
                 "spt" => c.spoints = v == "1",
+                "pp" => {
+                    for (i, x) in v.split(',').enumerate() {
+                        let n: i64 = x.parse().unwrap();
+                        c.pred_pos[i] = if n < 0 { u32::MAX } else { n as u32 };
+                    }
+                }
+                "cpl" => c.cp_limit = v.parse().unwrap(),
+                "fp" => c.fault_payload = v.parse().unwrap(),
+                "q" => c.quiet = v == "1",
                 _ => panic!("MACHINERY: unknown case field {}", k),
             }
         }
@@ -348,12 +392,20 @@ pub fn install_params(case: &Case) {
     cl::FMASK[cl::ST_PRED as usize].store(case.pmask, SeqCst);
     cl::PANIC_AT.store(case.fault.map(|(s, id)| cl::enc_fault(s, id)).unwrap_or(u64::MAX), SeqCst);
     cl::CLOSURE_POINTS.store(case.cpoints, SeqCst);
+    cl::CLOSURE_POINTS_LIMIT.store(case.cp_limit as u32, SeqCst);
+    cl::QUIET.store(case.quiet, SeqCst);
+    cl::FAULT_PAYLOAD.store(case.fault_payload as u32, SeqCst);
+    for i in 0..2 {
+        let id = if case.pred_pos[i] == u32::MAX { u64::MAX } else { case.id_at_pred(case.pred_pos[i]) };
+        cl::PRED_IDS[i].store(id, SeqCst);
+    }
+    source::WIDE.store(case.wide(), SeqCst);
 }
 
 /// One execution of `case` on the real code with the forced choice prefix.
 pub fn run_case(case: &Case, cfg: &Config, prefix: &[u8], body: BodyFn) -> Obs {
-    install_params(case);
     source::reset();
+    install_params(case);
     source::SRC_POINTS.store(case.spoints, SeqCst);
     tok::reset_table();
     glue::reset();
@@ -365,6 +417,8 @@ pub fn run_case(case: &Case, cfg: &Config, prefix: &[u8], body: BodyFn) -> Obs {
                 s.to_string()
             } else if let Some(s) = e.downcast_ref::<String>() {
                 s.clone()
+            } else if let Some(f) = e.downcast_ref::<cl::InjectedFault>() {
+                format!("injected fault (custom payload) at stage {} id {:#x}", f.0, f.1)
             } else {
                 "<non-string panic>".to_string()
             }
